@@ -24,8 +24,10 @@ def gen_history(g, rng, length):
             h.op_setparent()
         elif r < 0.7:
             h.op_set()
-        else:
+        elif r < 0.95:
             h.op_mods()
+        else:
+            h.op_new_with_children()
         if len(h.items) == n0:
             continue
         bad = world.oracle_cache(h.w, h.uuids + [1, (1 << 128) - 1])
